@@ -579,3 +579,93 @@ Example C05_example_exact :
   /\ qpairs (abs_expr (m_obj (mrun ex_hist m_empty))) = qpairs (s_obj (srun ex_hist s_empty))
   /\ o_cons (orun ex_hist o_empty) = map (fun k => e_vars (mc_e k)) (m_cons (mrun ex_hist m_empty)).
 Proof. vm_compute. repeat split; reflexivity. Qed.
+
+(* ---------- substitute_self_loops and clear (S level) ---------- *)
+From Dimod Require Import Proofs.SelfLoopFacts.
+Local Open Scope Qc_scope.
+
+(* replacing every stored self-loop u*u by u*new leaves the value of the expression unchanged wherever new = u *)
+Theorem C05_substitute_self_loops_expression_energy :
+  forall vt mp p s, mp_ok s mp -> energy (subst_loops_poly vt mp p) s = energy p s.
+Proof. exact subst_loops_poly_energy. Qed.
+Print Assumptions C05_substitute_self_loops_expression_energy.
+
+(* ... and no substituted variable keeps a self-loop *)
+Theorem C05_substitute_self_loops_removes_loops :
+  forall vt mp p t, (forall t', In t' mp -> snd (fst t') <> fst (fst t')) -> In t mp ->
+    has_pair (p_quad (subst_loops_poly vt mp p)) (fst (fst t)) (fst (fst t)) = false.
+Proof. exact subst_loops_poly_no_self_loop. Qed.
+Print Assumptions C05_substitute_self_loops_removes_loops.
+
+(* the model as a whole: the objective and every constraint that was there keep their value at every sample in which
+   each new variable equals its original, and each appended constraint u - new == 0 holds there *)
+Theorem C05_substitute_self_loops_energies :
+  forall mp q q' s, subst_self_loops mp q = (q', XNone) -> mp_ok s mp ->
+    energy (q_obj q') s = energy (q_obj q) s
+    /\ map (fun k => energy (k_p k) s) (firstn (length (q_cons q)) (q_cons q')) = map (fun k => energy (k_p k) s) (q_cons q)
+    /\ forall k, In k (skipn (length (q_cons q)) (q_cons q')) -> energy (k_p k) s = 0.
+Proof. exact subst_self_loops_energies. Qed.
+Print Assumptions C05_substitute_self_loops_energies.
+
+(* constraints: the old ones keep label, sense, right-hand side, softness and mark; one hard equality per entry is appended *)
+Theorem C05_substitute_self_loops_constraints :
+  forall mp q q', subst_self_loops mp q = (q', XNone) ->
+    length (q_cons q') = (length (q_cons q) + length mp)%nat
+    /\ map k_lbl (q_cons q') = map k_lbl (q_cons q) ++ map snd mp
+    /\ map k_sense (q_cons q') = map k_sense (q_cons q) ++ map (fun _ => EQ) mp
+    /\ map k_rhs (q_cons q') = map k_rhs (q_cons q) ++ map (fun _ => 0) mp
+    /\ map k_soft (q_cons q') = map k_soft (q_cons q) ++ map (fun _ => None) mp
+    /\ map k_mark (q_cons q') = map k_mark (q_cons q) ++ map (fun _ => false) mp.
+Proof. exact subst_self_loops_shape. Qed.
+Print Assumptions C05_substitute_self_loops_constraints.
+
+(* variables: the old ones are untouched; one new variable per entry, in the mapping's order, with its original's type and bounds *)
+Theorem C05_substitute_self_loops_variables :
+  forall mp q q', subst_self_loops mp q = (q', XNone) -> q_vars q' = q_vars q ++ flat_map (new_var (q_vars q)) mp.
+Proof. exact subst_self_loops_vars. Qed.
+Print Assumptions C05_substitute_self_loops_variables.
+
+Theorem C05_substitute_self_loops_keys_are_variables :
+  forall mp q q' t, subst_self_loops mp q = (q', XNone) -> In t mp -> exists x, find_var (fst (fst t)) (q_vars q) = Some x.
+Proof. exact subst_self_loops_keys_are_variables. Qed.
+Print Assumptions C05_substitute_self_loops_keys_are_variables.
+
+(* the specification decides WHICH variables are substituted: a mapping over any other key set is not accepted *)
+Theorem C05_substitute_self_loops_rejects_wrong_keys :
+  forall mp q,
+    let need := map v_lbl (filter (needs_subst q) (q_vars q)) in
+    let keys := map (fun t => fst (fst t)) mp in
+    (forallb (fun x => memb x keys) need && forallb (fun x => memb x need) keys) = false ->
+    subst_self_loops mp q = (q, XOther).
+Proof. exact subst_self_loops_rejects. Qed.
+Print Assumptions C05_substitute_self_loops_rejects_wrong_keys.
+
+Theorem C05_clear_is_empty : forall q, step q Clear = (empty_cqm, XNone).
+Proof. exact clear_is_empty. Qed.
+Print Assumptions C05_clear_is_empty.
+
+Example C05_example_substitute_self_loops :
+  let p := mkPoly 0 [(0%nat, 1)] [(0%nat, 0%nat, two); (0%nat, 1%nat, 1)] in
+  let q := mkCqm [mkV 0 INTEGER 0 (qc 5 1); mkV 1 BINARY 0 1] p [] in
+  let r := fst (subst_self_loops [(0%nat, 7%nat, 3%nat)] q) in
+  snd (subst_self_loops [(0%nat, 7%nat, 3%nat)] q) = XNone
+  /\ map v_lbl (q_vars r) = [0%nat; 1%nat; 7%nat]
+  /\ has_pair (p_quad (q_obj r)) 0 0 = false /\ quad_coeff (p_quad (q_obj r)) 0 7 = two
+  /\ map k_lbl (q_cons r) = [3%nat]
+  /\ snd (subst_self_loops [] q) = XOther.
+Proof. vm_compute. repeat split; reflexivity. Qed.
+
+(* ---------- from_discrete_quadratic_model (S level) ---------- *)
+From Dimod Require Import Proofs.FromDqmFacts.
+
+(* one hard equality (== 1) with the discrete mark per DQM variable, in order, under the DQM variable's label; the
+   objective is the case-level model *)
+Theorem C05_from_dqm_shape :
+  forall d gs q', from_dqm d gs = (q', XNone) ->
+    map k_lbl (q_cons q') = map fst gs
+    /\ map k_mark (q_cons q') = map (fun _ => true) gs
+    /\ map k_sense (q_cons q') = map (fun _ => EQ) gs
+    /\ map k_rhs (q_cons q') = map (fun _ => 1) gs
+    /\ q_obj q' = desc_poly (vt_of (merge_vars [] (d_vars d))) d.
+Proof. exact from_dqm_shape. Qed.
+Print Assumptions C05_from_dqm_shape.
